@@ -683,6 +683,39 @@ class EvalMixin:
     def ev_GeneratorExp(self, node):
         return self.comprehension(node)
 
+    def ev_DictComp(self, node):
+        """{k: v for k, v in d.items() if cond(k, v)}: a new dict holding the
+        selected entries of d (same keys, same values)"""
+        from .builtins_impl import VView, alloc_container
+        if len(node.generators) != 1:
+            raise Unsupported('nested dict comprehension')
+        g = node.generators[0]
+        src = self.ev(g.iter)
+        if not (isinstance(src, VView) and src.kind == 'items' and isinstance(g.target, ast.Tuple)
+                and len(g.target.elts) == 2 and all(isinstance(e, ast.Name) for e in g.target.elts)
+                and isinstance(node.key, ast.Name) and node.key.id == g.target.elts[0].id
+                and isinstance(node.value, ast.Name) and node.value.id == g.target.elts[1].id):
+            raise Unsupported('dict comprehension other than {k: v for k, v in d.items() if ...}')
+        P = self.path
+        d = src.d
+        has, val = P.read_field(d, 'has'), P.read_field(d, 'val')
+        key = has.shape.key.fresh('k')
+        qs = has.shape.key.unpack(key)
+        v = val.shape.select(val, key)
+        env = {g.target.elts[0].id: key, g.target.elts[1].id: v}
+        cond = z3.BoolVal(True)
+        for c in g.ifs:
+            cond = z3.And(cond, self.spec_bool(c, env))
+        new = alloc_container(self, d.shape)
+        nhas = has.shape.fresh('selected')
+        P.assume(z3.ForAll(qs, nhas.shape.select(nhas, key).e == z3.And(has.shape.select(has, key).e, cond)))
+        size = IntS.fresh('selected_size')
+        P.assume(z3.And(size.e >= 0, size.e <= P.read_field(d, 'size').e))
+        P.write_field(new, 'has', nhas)
+        P.write_field(new, 'val', val)
+        P.write_field(new, 'size', size)
+        return new
+
     def ev_ListComp(self, node):
         return self.comprehension(node)
 
